@@ -589,18 +589,25 @@ def r1_9(ctx: Ctx) -> None:
     ctx.rule("R1.9", "no local is dereferenced on every path *before* the function itself tests it for None / truthiness "
                      "(the later test states the belief that it may be None; the earlier dereference then raises)")
 
+    def chain_text(e: ast.AST) -> Optional[str]:
+        """Text of a name or of a pure attribute chain (`x`, `self._host_db_client`); None otherwise."""
+        x = e
+        while isinstance(x, ast.Attribute):
+            x = x.value
+        return unparse(e) if isinstance(x, ast.Name) and isinstance(e, (ast.Name, ast.Attribute)) else None
+
     def derefs(node: CNode, name: str) -> bool:
         r = node.expr_root()
         if r is None or isinstance(r, (ast.FunctionDef, ast.AsyncFunctionDef, ast.ClassDef, ast.ExceptHandler)):
             return False
         def tests(e: ast.AST) -> Optional[bool]:
             """True: e holds only if `name` is not None/falsy; False: e holds only if it is None/falsy; None: no test of it."""
-            if isinstance(e, ast.Name) and e.id == name:
+            if chain_text(e) == name:
                 return True
             if isinstance(e, ast.UnaryOp) and isinstance(e.op, ast.Not):
                 t = tests(e.operand)
                 return None if t is None else not t
-            if isinstance(e, ast.Compare) and len(e.ops) == 1 and isinstance(e.left, ast.Name) and e.left.id == name \
+            if isinstance(e, ast.Compare) and len(e.ops) == 1 and chain_text(e.left) == name \
                     and isinstance(e.comparators[0], ast.Constant) and e.comparators[0].value is None:
                 return isinstance(e.ops[0], (ast.IsNot, ast.NotEq))
             return None
@@ -622,9 +629,9 @@ def r1_9(ctx: Ctx) -> None:
                 return unprotected(e.body) or unprotected(e.orelse)
             if isinstance(e, (ast.Lambda, ast.FunctionDef, ast.AsyncFunctionDef, ast.ClassDef)):
                 return False
-            if isinstance(e, (ast.Attribute, ast.Subscript)) and isinstance(e.value, ast.Name) and e.value.id == name:
+            if isinstance(e, (ast.Attribute, ast.Subscript)) and chain_text(e.value) == name:
                 return True
-            if isinstance(e, ast.Call) and isinstance(e.func, ast.Name) and e.func.id == name:
+            if isinstance(e, ast.Call) and chain_text(e.func) == name:
                 return True
             return any(unprotected(c) for c in ast.iter_child_nodes(e) if not isinstance(c, (ast.stmt,)) or c is e)
 
@@ -638,6 +645,8 @@ def r1_9(ctx: Ctx) -> None:
         a = node.ast
 
         def names(t):
+            if isinstance(t, ast.Attribute) and chain_text(t) is not None:
+                yield chain_text(t)
             if isinstance(t, ast.Name):
                 yield t.id
             elif isinstance(t, (ast.Tuple, ast.List)):
@@ -655,6 +664,29 @@ def r1_9(ctx: Ctx) -> None:
             return any(name in set(names(x)) for x in tg)
         return any(isinstance(x, ast.NamedExpr) and x.target.id == name for x in ast.walk(a)) if a is not None else False
 
+    def may_be_none(f: FuncInfo, e: ast.Attribute) -> bool:
+        """The attribute is declared Optional (field annotation or property return annotation); unknown -> False."""
+        from ..types import func_types
+        try:
+            owner, _sh = func_types(ix, f).expr_type(e.value)
+        except Exception:  # noqa: BLE001
+            return False
+        if owner is None:
+            return False
+        r = ix.find_field(owner, e.attr)
+        ann = unparse(r[1].ann) if r is not None and r[1].ann is not None else None
+        if ann is None:
+            m = ix.find_method(owner, e.attr)
+            if m is not None and not isinstance(m.node, ast.Lambda):
+                if m.node.returns is not None:
+                    ann = unparse(m.node.returns)
+                # a property whose body looks something up with .get(...) or returns None says so itself, whatever it is annotated
+                if any(isinstance(x, ast.Call) and isinstance(x.func, ast.Attribute) and x.func.attr == "get" for x in ast.walk(m.node)) or any(
+                        isinstance(x, ast.Return) and (x.value is None or (isinstance(x.value, ast.Constant) and x.value.value is None))
+                        for x in ast.walk(m.node)):
+                    return True
+        return ann is not None and ("Optional" in ann or "None" in ann)
+
     n_checks = 0
     for f in ix.functions:
         if isinstance(f.node, ast.Lambda):
@@ -670,9 +702,13 @@ def r1_9(ctx: Ctx) -> None:
             nm = None
             if isinstance(e, ast.Name):
                 nm = e.id
-            elif isinstance(e, ast.Compare) and len(e.ops) == 1 and isinstance(e.ops[0], (ast.Is, ast.IsNot)) and isinstance(e.left, ast.Name) \
+            elif isinstance(e, ast.Compare) and len(e.ops) == 1 and isinstance(e.ops[0], (ast.Is, ast.IsNot)) \
                     and isinstance(e.comparators[0], ast.Constant) and e.comparators[0].value is None:
-                nm = e.left.id
+                # a local, or an attribute chain rooted at self / a local (`self._host_db_client is None`): with the normal form a
+                # local that only named such a chain is presented as the chain
+                nm = chain_text(e.left)
+                if nm and isinstance(e.left, ast.Attribute) and not may_be_none(f, e.left):
+                    nm = None  # a field that is declared non-optional: the test is redundant, not a stated belief
             if nm and nm not in ("self", "cls"):
                 checks.append((n, nm))
         if not checks:
